@@ -330,7 +330,13 @@ def gen_disagg(r: random.Random, partial=True):
     with warnings.catch_warnings():
         warnings.simplefilter("ignore")
         tri = Triangle(cells)
-    return dict(kind="disagg", tri=tri, res=sub, weights=weights, fields=farg, how=how, wtag=wtag, R=R)
+        incremental = r.random() < 0.18
+        if incremental:
+            # incremental triangles go through to_cumulative / to_incremental around the same core: covered by the
+            # direct conservation oracle only (the Coq model is stated for cumulative triangles)
+            tri = tri.to_incremental()
+    return dict(kind="disagg", tri=tri, res=sub, weights=weights, fields=farg, how=how, wtag=wtag, R=R,
+                incremental=incremental)
 
 
 def run_disagg(case):
@@ -401,7 +407,7 @@ def oracle_reaggregate(case, res):
     from bermuda.utils.disaggregate import DEFAULT_INTERPOLATION_FIELDS
 
     tri, sub = case["tri"], case["res"]
-    if res[0] != "ok" or case["how"] != "ok" or case["wtag"].startswith("bad") or res[1] is tri:
+    if res[0] != "ok" or case["how"] != "ok" or case["wtag"].startswith("bad") or res[1] is tri or case.get("incremental"):
         return []
     fields = case["fields"] if case["fields"] is not None else DEFAULT_INTERPOLATION_FIELDS
     origin = tri.cells[0].period_start - datetime.timedelta(days=1)
@@ -436,6 +442,8 @@ def coq_disagg(case, res, tol):
     from bermuda.date_utils import period_resolution
 
     tri = case["tri"]
+    if case.get("incremental"):
+        raise NotRepresentable("incremental triangle: direct oracle only")
     res_tri = period_resolution(tri)
     for s in tri.slices.values():
         if period_resolution(s) != res_tri:
@@ -843,7 +851,7 @@ def run(ctx):
         ctx.prove(ctx.build / "C18_fields.v", timeout=300)
 
     # ---------------------------------------------------------------- cases
-    N = {"convert": 110, "disagg": 130, "aq": 110, "premium": 400} if ctx.quick else \
+    N = {"convert": 90, "disagg": 110, "aq": 90, "premium": 300} if ctx.quick else \
         {"convert": 1200, "disagg": 1200, "aq": 1000, "premium": 5000}
     gens = {"convert": gen_convert, "disagg": gen_disagg, "aq": gen_aq, "premium": gen_premium}
     checks = {"convert": (CHECK_CONVERT, 12), "disagg": (CHECK_DISAGG, 12), "aq": (CHECK_AQ, 10), "premium": (CHECK_PREMIUM, 60)}
@@ -876,6 +884,8 @@ def run(ctx):
                                       or case["wtag"] == "dyadic")
                     if not full:
                         ctx.hist("disagg:partially-observable")
+                    if case.get("incremental"):
+                        ctx.hist("disagg:incremental(direct-oracle-only)")
                     txt = coq_disagg(case, res, Fraction(0) if exact else TOL)
                 elif kind == "aq":
                     ctx.hist(f"aq:len{case['policy_length_months']}/cont={case['continuous_issuance']}/flat={case['flat']}")
